@@ -34,7 +34,21 @@ where
 	M: Parse,
 {
 	itr.find_map(|attr| {
-		attr.path().is_ident("codec").then(|| pred(attr.parse_args().ok()?)).flatten()
+		attr.path()
+			.is_ident("codec")
+			.then(|| {
+				// The attribute checks accept a trailing comma after the item, so accept it here as
+				// well, otherwise such an attribute would pass the checks and then be ignored.
+				let item = attr
+					.parse_args_with(|input: syn::parse::ParseStream| {
+						let item = input.parse::<M>()?;
+						input.parse::<Option<Token![,]>>()?;
+						Ok(item)
+					})
+					.ok()?;
+				pred(item)
+			})
+			.flatten()
 	})
 }
 
